@@ -176,6 +176,12 @@ def _write_evidence(prop, tier, seed, level, clause, results, violations, known_
         "violations": [f.to_json() for f in violations],
         "known_findings": [f.key for f in known_hits],
     }
+    n_undec = sum(len(r.undecided) for r in results)
+    if level == "proof" and (violations or n_undec or broken):
+        # an open obligation means the closed argument is not established on this run: report it as such
+        level = "other"
+        cov["explanation"] = "(proof obligations not all discharged on this run: %d violations, %d undecided) " % (
+            len(violations), n_undec) + clause
     if level == "proof":
         cov["obligations"] = max(n_inst, 1)
         cov["discharged"] = n_inst - len(violations) - sum(len(r.undecided) for r in results)
